@@ -73,6 +73,9 @@ impl Prop for C16Prop {
         let default8k = fe.is_reader() && rng.chance(1, 40);
         let len = if default8k {
             *rng.pick(&[8191usize, 8192, 8193])
+        } else if rng.chance(1, 400) {
+            // beyond 2^16: the fill level of a fixed buffer must not be a 16-bit quantity
+            *rng.pick(&[65_536usize, 70_000])
         } else if rng.chance(1, 25) {
             *rng.pick(&[48usize, 64, 96, 128, 255, 256, 257, 512, 1024, 2048, 4096, 8191, 8192])
         } else {
@@ -111,7 +114,7 @@ impl Prop for C16Prop {
             }
             c.sort();
             c.dedup();
-            c.into_iter().filter(|n| *n <= 8193).map(BufKind::Arr).collect()
+            c.into_iter().filter(|n| *n <= 8193 || lm > 8193).map(BufKind::Arr).collect()
         };
         let f1 = build_stream(&l.segs[..1]).stream;
         let mut violation: Option<Violation> = None;
